@@ -439,7 +439,7 @@ def obligations(tier: str):
            Chx("only_cover", h_only_cover, timeout=T, split={"s": list(range(0, 10))}, path_timeout=60),
            Chx("only_and_no_cover", h_only_and_no_cover, timeout=T, split={"s": list(range(0, 10))}, path_timeout=60),
            Chx("import_hook_ignore_methods", h_import_hook, timeout=T, split={"s": list(range(0, 10))}, path_timeout=60)]
-    nd = 14  # scopes of corpus/C08_deco.py
+    nd = 15  # scopes of corpus/C08_deco.py
     obs += [Chx("deco_one_marker", h_deco_one_marker, timeout=T, split={"kind": [0, 1] if q else [0, 1, 2]}, path_timeout=60),
             Chx("deco_no_cover", h_deco_no_cover, timeout=T, split={"s": list(range(nd))}, path_timeout=60),
             Chx("deco_only_cover", h_deco_only_cover, timeout=T, split={"s": list(range(nd))}, path_timeout=60),
